@@ -156,6 +156,20 @@ def limited(seconds, fn, *args, **kw):
         sys.settrace(old)
 
 
+def json_corpus(pid):
+    """documents on which earlier seeded changes were caught (corpus/json/<pid>/*.json), oldest name first"""
+    d = os.path.join(VERIF, "corpus", "json", pid)
+    out = []
+    if os.path.isdir(d):
+        for f in sorted(os.listdir(d)):
+            if f.endswith(".json"):
+                try:
+                    out.append(json.load(open(os.path.join(d, f))))
+                except Exception:  # noqa
+                    pass
+    return out
+
+
 def known_findings():
     f = os.path.join(VERIF, "known_findings.json")
     if not os.path.exists(f):
